@@ -12,6 +12,9 @@ import (
 
 func (fx *fnExec) call(in ssa.Instruction, cc *ssa.CallCommon, st *State) Val {
 	pos := in.Pos()
+	if ci, ok := in.(ssa.CallInstruction); ok {
+		fx.curCall = ci
+	}
 	var rt types.Type
 	if v, ok := in.(ssa.Value); ok {
 		rt = v.Type()
@@ -58,6 +61,9 @@ func (fx *fnExec) call(in ssa.Instruction, cc *ssa.CallCommon, st *State) Val {
 				return fx.freshOf("cb", rt, st)
 			}
 		}
+	}
+	if fx.ex.HavocCallsC != nil {
+		return fx.havocCall("dynamic call "+dname, nil, st, rt)
 	}
 	return fx.opaqueCall("dynamic call "+dname, nil, args, st, rt)
 }
@@ -129,14 +135,23 @@ func (fx *fnExec) callStatic0(callee *ssa.Function, args []Val, bindings []Val, 
 		return fx.applyContract(c, callee, fx.softMaterializeArgs(args), st, pos, rt)
 	}
 	if callee.Blocks == nil {
+		if ex.HavocCallsC != nil {
+			return fx.havocCall(name, callee, st, rt)
+		}
 		return fx.opaqueCall(name, callee, args, st, rt)
 	}
 	path := pkgPathOf(callee)
 	inl := (c != nil && c.Inline) || inlinePkgs[path] || callee.Parent() != nil || bindings != nil || (inlineAll && inRepo(callee)) || ex.useBody(callee)
 	if !inl && inRepo(callee) {
 		// same-module callee without contract: inline when small and loop-free
-		if (!hasLoops(callee) && len(callee.Blocks) <= 40) || ex.Bounded {
+		small := 40
+		if ex.HavocCallsC != nil {
+			small = havocInlineBlocks // orchestrating units: only trivial callees are executed, the rest is abstracted
+		}
+		if (!hasLoops(callee) && len(callee.Blocks) <= small) || ex.Bounded {
 			inl = true // bounded units execute callee bodies (loops unrolled up to the bound)
+		} else if ex.HavocCallsC != nil {
+			return fx.havocCall(name, callee, st, rt)
 		} else {
 			fail("%s: callee %s has loops or is large and has no contract (add one, or mark it inline/opaque)", fx.fn, name)
 		}
@@ -155,9 +170,19 @@ func (fx *fnExec) callStatic0(callee *ssa.Function, args []Val, bindings []Val, 
 			}
 			c = &tmp
 		}
+		if ex.HavocCallsC != nil && c == nil && bindings == nil {
+			// a callee whose body turns out to be outside the subset is abstracted instead
+			if v, ok := fx.tryInline(callee, args, st); ok {
+				return v
+			}
+			return fx.havocCall(name, callee, st, rt)
+		}
 		v, out := ex.runFunc(callee, args, bindings, st, false, c)
 		*st = *out
 		return v
+	}
+	if ex.HavocCallsC != nil {
+		return fx.havocCall(name, callee, st, rt)
 	}
 	return fx.opaqueCall(name, callee, args, st, rt)
 }
@@ -250,6 +275,9 @@ func (fx *fnExec) applyContract(c *Contract, callee *ssa.Function, args []Val, s
 	var rvals []Val
 	for i := 0; i < sig.Len(); i++ {
 		rv := freshVal(fmt.Sprintf("%s_r%d", funcKey(callee), i), sig.At(i).Type())
+		if c.Function {
+			rv = fx.functionalResult(callee, args, i, rv, old)
+		}
 		ex.assumeAll(st, typeInv(rv, 0))
 		rvals = append(rvals, rv)
 	}
@@ -496,7 +524,22 @@ func (fx *fnExec) invoke(recv Val, m *types.Func, args []Val, st *State, pos tok
 			return fx.dispatch(recv, impls, args, st, pos, rt, iname)
 		}
 	}
+	// the dynamic type is known (the interface value was made from a concrete type in this unit):
+	// call that type's method directly, through its contract or body
+	if recv.C[0].IsConst() && recv.C[0].Val != nil && recv.C[0].Val.IsInt64() {
+		if dt, ok := ex.tagType[int(recv.C[0].Val.Int64())]; ok {
+			if sel := ex.L.Prog.MethodSets.MethodSet(dt).Lookup(m.Pkg(), m.Name()); sel != nil {
+				if fn := ex.L.Prog.MethodValue(sel); fn != nil {
+					rv := ex.unbox(dt, recv.C[1])
+					return fx.callStatic(fn, append([]Val{rv}, args...), nil, st, pos, rt)
+				}
+			}
+		}
+	}
 	fx.nopanic("nil", st, Neq(recv.C[0], IntC(0)), pos)
+	if ex.HavocCallsC != nil {
+		return fx.havocCall("interface method "+iname, nil, st, rt)
+	}
 	return fx.opaqueCall("interface method "+iname, nil, args, st, rt)
 }
 
